@@ -1,12 +1,50 @@
 (** C07 — Molecule text reads back as written; parsing is layout-insensitive and total.
     Property theorems only; each is closed by [exact] of a lemma from Proofs/Text*.v.
     Models: Model/Text.v ([parse] = from_string for xyz / xyz+ / psi4 up to the dictionary handed to
-    from_input_arrays; recognisers tied to [re] differentially on every run) and Model/Writers.v +
-    Gen/WriterTables.v ([to_string_model] = to_string, tied byte-exactly, see C08). *)
+    from_input_arrays, [parse_auto] = from_string with dtype=None; recognisers tied to [re] differentially on every
+    run) and Model/Writers.v + Gen/WriterTables.v ([to_string_model] = to_string, tied byte-exactly, see C08).
+
+    CLAUSE MAP (statement of C07 in properties.jsonl -> theorems; "oracle" = checked on the implementation only):
+    - write, then parse, returns the same molecule in every field the format carries:
+        psi4 (elements, ghosts, labels, printed coordinates, total + fragment chg/mult, fragment boundaries,
+        fix_com / fix_orientation, unit) ........... C07_roundtrip_psi4 (characters, all molecules), through the default
+        entry point (dtype=None) C07_roundtrip_psi4_auto; building blocks C07_psi4_reader_on_fragment_blocks,
+        C07_number_reads_back, C07_atom_line_reads_back
+        xyz+ (elements, ghosts, coordinates, total chg/mult, unit) ... C07_roundtrip_xyzplus, C07_xyzplus_reader_on_lines
+        xyz  (elements, coordinates; Angstrom) ....................... C07_roundtrip_xyz, C07_xyz_reader_on_lines
+        "coordinates to the printed precision in the requested unit" .. [dn] in the above + C08_printed_digits_nearest,
+        C08_converted_value_nearest, C08_factor_table
+        non-default atom_format / ghost_format for xyz / xyz+ ......... only correspondence (the writer docstring says they
+        need not be re-readable)
+    - Molecule -> string / file -> Molecule with unchanged hash ...... oracle (hash-string / hash-file streams);
+        validation after parsing is the subject of C04 / C05 / C06, the hash of C11
+    - dtype=None on an xyz+ text without ghost / unit word ........... C07_autodetect_xyzplus_refuted (known finding
+        C07-autodetect-xyzplus-shadowed: read as strict xyz, charge and multiplicity lost)
+    - layout: comments ................. C07_layout_comment, C07_layout_comment_line (filter_comments, hence all dtypes),
+                                         C07_layout_insensitive (psi4 texts)
+              blank lines .............. C07_layout_blank_lines_psi4, C07_layout_blank_lines_xyz (xyz / xyz+, after the
+                                         two header lines, whose position is significant)
+              surrounding whitespace ... C07_layout_outer_whitespace (all dtypes), C07_layout_line_padding_psi4 / _xyz,
+                                         texts <-> lines: C07_psi4_text_of_lines, C07_xyz_text_of_lines
+              tab / comma separators ... C07_layout_separators (atom and chg/mult lines, all readers)
+              case of keywords ......... C07_layout_keyword_case
+              case of symbols .......... C07_layout_symbol_case (recognised alike; that "he" and "He" then denote the same
+                                         element is C06's reconciliation; end to end: oracle, layout:case stream)
+              equivalent numerals ...... C07_numeral_plus, C07_numeral_leading_zero, C07_numeral_exponent_letter (same
+                                         decimal); trailing zeros / shifted exponent give another decimal of the same
+                                         value: oracle (layout:numeral stream) + float(str) correspondence
+    - totality under xyz / xyz+ / psi4 ........ C07_total, C07_total_short; with dtype=None C07_total_auto,
+        C07_total_auto_short; the unrestricted claim is false: C07_total_refuted (known finding C07-int-digit-limit).
+        The classes raised after parsing (ValidationError, NotAnElementError, and the known OverflowError) come from
+        from_input_arrays: oracle (totality stream) here, models in C04-C06.
+    - tie of the reader model to the source: C07_recognisers_use_the_source_tables (keyword / unit-word / separator /
+        exponent-letter tables = Gen/TextTables.v, regenerated from the regular expressions on every run); everything
+        else of the recognisers and the line filters by differential execution against re / from_string. *)
 From Coq Require Import ZArith NArith List String Ascii Bool Lia.
 Require Import QV.Common.Outcome QV.Common.WText QV.Common.WBin64 QV.Model.WriterTypes QV.Gen.WriterTables QV.Model.Writers
                QV.Model.Text QV.Proofs.Writers QV.Proofs.Text QV.Proofs.TextRT QV.Proofs.TextLex QV.Proofs.TextLayout
-               QV.Proofs.TextRoundTrip QV.Proofs.TextLayoutRel QV.Proofs.TextRoundTripXyz.
+               QV.Proofs.TextRoundTrip QV.Proofs.TextLayoutRel QV.Proofs.TextRoundTripXyz QV.Proofs.TextAuto
+               QV.Gen.TextTables QV.Proofs.TextTables.
 Import ListNotations.
 
 (* ------------------------------------------------------------------------------------------ *)
@@ -27,6 +65,15 @@ Theorem C07_roundtrip_psi4 : forall cfg m text kw w r,
     atoms_formatter (af_of e_psi4 cfg) (gf_of e_psi4 cfg) (factor_of e_psi4 cfg m) (m_atoms m) = Ok atoms
     /\ parse "psi4" text = Ok (carried_psi4 cfg m atoms r).
 Proof. exact roundtrip_psi4. Qed.
+
+(** ... and through the default entry point (dtype=None, what Molecule.from_data uses): the text is detected as psi4 *)
+Theorem C07_roundtrip_psi4_auto : forall cfg m text kw w r,
+  s_lower (w_dtype cfg) = "psi4"%string -> to_string_model cfg m = Ok (text, kw) ->
+  unit_word (units_of e_psi4 cfg) = Some (w, r) -> psi4_fits cfg m ->
+  exists atoms,
+    atoms_formatter (af_of e_psi4 cfg) (gf_of e_psi4 cfg) (factor_of e_psi4 cfg m) (m_atoms m) = Ok atoms
+    /\ parse_auto text = Ok ("psi4"%string, carried_psi4 cfg m atoms r).
+Proof. exact roundtrip_psi4_auto. Qed.
 
 (** the psi4 reader on ANY lines that the recognisers read as: total chg/mult, then per fragment "--",
     chg/mult, atom lines, then units / no_com / no_reorient — any number of fragments and atoms *)
@@ -104,6 +151,34 @@ Theorem C07_total_refuted :
   exists text, parse "psi4" text = Err PyValueError.
 Proof. exists ("0 " ++ s_repeat (ch 49) 4301 ++ String nl "He 0 0 0")%string. vm_compute. reflexivity. Qed.
 
+(** the same through format auto-detection (dtype=None): a dictionary under one of the three dtypes, or "all three
+    readers refuse / pubchem / efp" (where the implementation goes on to the psi4+ dialect, outside the model), or
+    the ValueError of the digit limit *)
+Theorem C07_total_auto : forall text, auto_documented (parse_auto text) \/ parse_auto text = Err PyValueError.
+Proof. exact parse_auto_total. Qed.
+Theorem C07_total_auto_short : forall text,
+  (String.length text <= int_max_str_digits)%nat -> auto_documented (parse_auto text).
+Proof. exact parse_auto_total_short. Qed.
+
+(** auto-detection tries strict xyz before xyz+: He+ doublet written as xyz+ is detected as strict xyz and loses
+    its charge and multiplicity (known finding C07-autodetect-xyzplus-shadowed; replayed by the hash stream) *)
+Definition shadow_mol : molrec :=
+  {| m_units := "Angstrom"; m_iutau := None;
+     m_atoms := [{| a_elea := 4; a_elez := 2; a_elem := "He"; a_mass := "4.0"; a_elbl := ""; a_real := true;
+                    a_x := B64 false 0 0; a_y := B64 false 0 0; a_z := B64 false 0 0 |}];
+     m_name := None; m_seps := []; m_chg := 1; m_mult := 2; m_fchg := [1%Z]; m_fmult := [2%Z];
+     m_fix_com := false; m_fix_orient := false; m_fix_symm := None; m_conn := [] |}.
+Definition shadow_cfg : wcfg :=
+  {| w_dtype := "xyz+"; w_units := None; w_afmt := None; w_gfmt := None; w_width := 17; w_prec := 12; w_conv := b64_one |}.
+Theorem C07_autodetect_xyzplus_refuted :
+  match to_string_model shadow_cfg shadow_mol with
+  | Ok (text, _) =>
+      (exists p, parse "xyz+" text = Ok p /\ p_molchg p = Some (dz 1) /\ p_molmult p = Some 2%Z)
+      /\ (exists p', parse_auto text = Ok ("xyz"%string, p') /\ p_molchg p' = None /\ p_molmult p' = None)
+  | Err _ => False
+  end.
+Proof. vm_compute. split; eexists; repeat split; reflexivity. Qed.
+
 (* ------------------------------------------------------------------------------------------ *)
 (** * layout insensitivity *)
 Theorem C07_layout_outer_whitespace : forall d w1 t w2,
@@ -148,6 +223,28 @@ Theorem C07_layout_line_padding_psi4 : forall L L',
   psi4_of_lines L' = psi4_of_lines L.
 Proof. exact layout_line_padding_psi4. Qed.
 
+(** xyz / xyz+: the same three statements; blank lines may go anywhere after the two header lines (the count line
+    and the title line are recognised by position) *)
+Theorem C07_xyz_text_of_lines : forall (strict : bool) L,
+  L <> [] -> Forall plain_line L ->
+  first_is c_is_space (jn L) = false -> last_is c_is_space (jn L) = false -> is_empty (jn L) = false ->
+  parse (if strict then "xyz"%string else "xyz+"%string) (jn L) = xyz_of_lines strict L.
+Proof. exact xyz_text_of_lines. Qed.
+Theorem C07_layout_blank_lines_xyz : forall strict l0 l1 L1 w L2,
+  s_all c_is_space w = true ->
+  xyz_of_lines strict (l0 :: l1 :: L1 ++ w :: L2) = xyz_of_lines strict (l0 :: l1 :: L1 ++ L2).
+Proof. exact layout_blank_lines_xyz. Qed.
+Theorem C07_layout_line_padding_xyz : forall strict L L',
+  Forall2 (fun l l' => exists w1 w2, s_all c_is_space w1 = true /\ s_all c_is_space w2 = true /\ l' = (w1 ++ l ++ w2)%string) L L' ->
+  xyz_of_lines strict L' = xyz_of_lines strict L.
+Proof. exact layout_line_padding_xyz. Qed.
+
+(** letter case of nucleus labels (element symbol, "Gh(..)" wrapper, user label): labels that differ only in case
+    are recognised alike by NUCLEUS and SIMPLENUCLEUS, so the same lines are atom lines *)
+Theorem C07_layout_symbol_case : forall n n',
+  s_lower n = s_lower n' -> is_nucleus n = is_nucleus n' /\ is_simple_nucleus n = is_simple_nucleus n'.
+Proof. exact layout_symbol_case. Qed.
+
 (** Layout insensitivity as one relation (psi4): [layout_equiv] is the equivalence generated by the rewrites
     white space around the text, a comment appended to a line (directly after a token or after blanks), a whole
     comment line, a blank line inside a tidy text, blanks/tabs around the lines of a tidy text ([tidy]: comment-free,
@@ -155,6 +252,19 @@ Proof. exact layout_line_padding_psi4. Qed.
     the recogniser-level theorems above.) *)
 Theorem C07_layout_insensitive : forall t t', layout_equiv t t' -> parse "psi4" t = parse "psi4" t'.
 Proof. exact layout_insensitive. Qed.
+
+(** the keyword alternatives (no_com | nocom, no_reorient | noreorient), the unit words of the "units" line and of the
+    xyz+ count line, the separator class and the exponent letters inside the hand-written recognisers ARE the tables
+    that the translator extracts from the module's regular expressions on every run (Gen/TextTables.v), for all lines
+    and characters; an edited alternative breaks this theorem (a reordered one does not) *)
+Theorem C07_recognisers_use_the_source_tables :
+  (forall l, is_com l = in_words gen_com_words (s_lower l))
+  /\ (forall l, is_orient l = in_words gen_orient_words (s_lower l))
+  /\ (forall l, units_match l = units_match_gen l)
+  /\ (forall l, xyz1_match l = xyz1_match_gen l)
+  /\ (forall c, is_sepc c = in_codes gen_sep_codes c)
+  /\ (forall c, is_expc c = in_codes gen_expc_codes c).
+Proof. exact recognisers_use_the_source_tables. Qed.
 
 (** equivalent numerals: explicit "+", leading zero, any exponent letter *)
 Theorem C07_numeral_plus : forall s c r, s = String c r -> c_eqb c c_minus = false -> c_eqb c c_plus = false ->
@@ -222,6 +332,7 @@ Example C07_ex_comment_after_token : parse "psi4" "He 0 0 1.25#c" = parse "psi4"
 Proof. split; vm_compute; reflexivity. Qed.
 
 Print Assumptions C07_roundtrip_psi4.
+Print Assumptions C07_roundtrip_psi4_auto.
 Print Assumptions C07_psi4_reader_on_fragment_blocks.
 Print Assumptions C07_number_reads_back.
 Print Assumptions C07_atom_line_reads_back.
@@ -232,6 +343,9 @@ Print Assumptions C07_xyz_reader_on_lines.
 Print Assumptions C07_total.
 Print Assumptions C07_total_short.
 Print Assumptions C07_total_refuted.
+Print Assumptions C07_total_auto.
+Print Assumptions C07_total_auto_short.
+Print Assumptions C07_autodetect_xyzplus_refuted.
 Print Assumptions C07_layout_outer_whitespace.
 Print Assumptions C07_layout_comment.
 Print Assumptions C07_layout_comment_line.
@@ -240,7 +354,12 @@ Print Assumptions C07_layout_keyword_case.
 Print Assumptions C07_psi4_text_of_lines.
 Print Assumptions C07_layout_blank_lines_psi4.
 Print Assumptions C07_layout_line_padding_psi4.
+Print Assumptions C07_xyz_text_of_lines.
+Print Assumptions C07_layout_blank_lines_xyz.
+Print Assumptions C07_layout_line_padding_xyz.
+Print Assumptions C07_layout_symbol_case.
 Print Assumptions C07_layout_insensitive.
+Print Assumptions C07_recognisers_use_the_source_tables.
 Print Assumptions C07_numeral_plus.
 Print Assumptions C07_numeral_leading_zero.
 Print Assumptions C07_numeral_exponent_letter.
